@@ -50,6 +50,9 @@ mod initial;
 mod keep_alive;
 mod session_context;
 mod tx_packet_numbers;
+#[cfg(aws_s2n_quic_verif)]
+#[path = "../verif_hooks/session.rs"]
+pub mod verif_session;
 
 pub(crate) use application::ApplicationSpace;
 pub(crate) use crypto_stream::CryptoStream;
